@@ -2175,7 +2175,7 @@ class Parameters:
             if new_val is Skip or new_val is Undefined:
                 continue
             elif is_async:
-                async_executor(partial(self_._async_ref, pname, new_val))
+                async_executor(partial(self_._async_ref, pname, new_val, ref))
                 continue
 
             updates[pname] = new_val
@@ -2196,37 +2196,47 @@ class Parameters:
         except Skip:
             value = Undefined
         if is_async:
-            async_executor(partial(self_._async_ref, pobj.name, value))
+            async_executor(partial(self_._async_ref, pobj.name, value, ref))
             value = None
         return ref, deps, value, is_async
 
-    async def _async_ref(self_, pname, awaitable):
+    async def _async_ref(self_, pname, awaitable, ref=Undefined):
         if not self_.self._param__private.initialized:
-            async_executor(partial(self_._async_ref, pname, awaitable))
+            async_executor(partial(self_._async_ref, pname, awaitable, ref))
             return
 
         import asyncio
+        private = self_.self._param__private
+        if ref is not Undefined and private.refs.get(pname, Undefined) is not ref:
+            # The reference was replaced or overridden before this
+            # task got to run, its result must never be applied.
+            if inspect.iscoroutine(awaitable):
+                awaitable.close()
+            return
         current_task = asyncio.current_task()
-        running_task = self_.self._param__private.async_refs.get(pname)
-        if running_task is None:
-            self_.self._param__private.async_refs[pname] = current_task
-        elif current_task is not running_task:
-            self_.self._param__private.async_refs[pname].cancel()
+        running_task = private.async_refs.get(pname)
+        if running_task is not None and running_task is not current_task:
+            running_task.cancel()
+        # The most recently started task always owns the parameter
+        private.async_refs[pname] = current_task
         try:
             if isinstance(awaitable, types.AsyncGeneratorType):
                 async for new_obj in awaitable:
                     with _syncing(self_.self, (pname,)):
                         self_.update({pname: new_obj})
             else:
+                # Await outside the syncing scope so that an assignment
+                # made while the awaitable is pending overrides the reference
+                try:
+                    new_obj = await awaitable
+                except Skip:
+                    return
                 with _syncing(self_.self, (pname,)):
-                    try:
-                        self_.update({pname: await awaitable})
-                    except Skip:
-                        pass
+                    self_.update({pname: new_obj})
         finally:
             # Ensure we clean up but only if the task matches the currrent task
-            if self_.self._param__private.async_refs.get(pname) is current_task:
-                del self_.self._param__private.async_refs[pname]
+            if private.async_refs.get(pname) is current_task:
+                del private.async_refs[pname]
 
     @classmethod
     def _changed(cls, event):
